@@ -34,6 +34,7 @@ type ConcOp struct {
 	Ts  []int       `json:"ts,omitempty"`
 	L   *LookupCall `json:"l,omitempty"`
 	Opt int         `json:"opt,omitempty"` // index into Opts (shared values); -1 = storage.DefaultLookup
+	Done bool       `json:"done,omitempty"` // lookup: the caller's context is already done when the call is made
 }
 
 type ConcCase struct {
@@ -162,6 +163,7 @@ func (h *concHarness) Gen(r *Rand, tier string, clean bool) any {
 				if r.Chance(0.5) {
 					op.Opt = r.Intn(len(c.Opts))
 				}
+				op.Done = r.Chance(0.08)
 			}
 			ops = append(ops, op)
 		}
@@ -277,6 +279,7 @@ type linIn struct {
 	lc   *LookupCall
 	opt  *OptSpec
 	anyResult bool // result not judged (only closure etc.)
+	ctxDone   bool // the call was made with a context that was already done
 	byName    bool // the graph is resolved by name when the operation takes effect (BQL statements)
 }
 
@@ -622,10 +625,18 @@ func (h *concHarness) Run(t *testing.T, ci any) *Outcome {
 							ev.in.opt = &os
 						}
 						ev.in.lc = op.L
+						lctx := ctx
+						if op.Done {
+							// a context that is done before the call: the lookup may refuse or answer, but it closes its channel
+							dctx, cancel := context.WithCancel(ctx)
+							cancel()
+							lctx = dctx
+							ev.in.ctxDone = true
+						}
 						var lr *lookupResult
-						lr = doLookupR(ctx, hd, *op.L, lo, c.Cap, func() { ev.ret = sim.Stamp() })
+						lr = doLookupR(lctx, hd, *op.L, lo, c.Cap, func() { ev.ret = sim.Stamp() })
 						ev.out.err = lr.Err != nil
-						if lr.Err != nil && !(ev.in.opt != nil && ev.in.opt.ErrorExpected()) {
+						if lr.Err != nil && !op.Done && !(ev.in.opt != nil && ev.in.opt.ErrorExpected()) {
 							note("lookup-error:" + normMsg(lr.Err.Error()))
 						}
 						ev.out.keys = strings.Join(sortedCopy(lr.Keys), "\n")
@@ -690,6 +701,9 @@ func (h *concHarness) Run(t *testing.T, ci any) *Outcome {
 		in := ev.in
 		if ev.in.k == "lookup" && ev.in.opt != nil && ev.in.opt.ErrorExpected() {
 			in.anyResult = true
+		}
+		if ev.in.k == "lookup" && ev.in.ctxDone && ev.out.err {
+			in.anyResult = true // refused because of the done context: only closure is judged
 		}
 		if in.k == "rm" {
 			for b := 0; b < len(uni); b++ {
